@@ -495,7 +495,12 @@ http_parse_req_line(const uint8_t *http_hdr, size_t hdr_size,
 		req_data->host_size = req_data->uri_size;
 	} else {
 		/* scheme, host, port */
-		ptm = mem_find_cstr(req_data->uri, req_data->uri_size, "://");
+		/* origin-form start with '/': "://" in path or query is not
+		 * scheme delimiter. */
+		ptm = NULL;
+		if (0 != req_data->uri_size && '/' != req_data->uri[0]) {
+			ptm = mem_find_cstr(req_data->uri, req_data->uri_size, "://");
+		}
 		if (NULL != ptm) { /* scheme */
 			req_data->scheme = req_data->uri;
 			req_data->scheme_size = (size_t)(ptm - req_data->scheme);
